@@ -78,6 +78,23 @@ def evaluate(v, leaf):
     if op in ('min', 'max') and a:
         vals = [evaluate(x, leaf) for x in a]
         return min(vals) if op == 'min' else max(vals)
+    if op in ('divmod', 'abs', 'pow', 'round') and a:
+        vals = [evaluate(x, leaf) for x in a]
+        try:
+            return {'divmod': divmod, 'abs': abs, 'pow': pow, 'round': round}[op](*vals)
+        except Exception as e:      # pylint: disable=broad-except
+            raise NotEvaluable('%s: %s' % (show(v), e))
+    if op == 'call' and a and a[0] in ('divmod', 'abs', 'min', 'max', 'pow', 'builtins.divmod') and len(a) > 1:
+        vals = [evaluate(x, leaf) for x in a[1:]]
+        try:
+            return {'divmod': divmod, 'builtins.divmod': divmod, 'abs': abs, 'min': min, 'max': max, 'pow': pow}[a[0]](*vals)
+        except Exception as e:      # pylint: disable=broad-except
+            raise NotEvaluable('%s: %s' % (show(v), e))
+    if op == 'index' and len(a) == 2 and isinstance(a[1], int):
+        base = evaluate(a[0], leaf)
+        if isinstance(base, (tuple, list)) and -len(base) <= a[1] < len(base):
+            return base[a[1]]
+        raise NotEvaluable(show(v))
     return leaf(v)
 
 
@@ -88,7 +105,17 @@ def leaves(v, acc=None):
         return acc
     if isinstance(v, Sym):
         known = v.op in ARITH or v.op in ('mod', 'floordiv', 'neg', 'invert', 'not', 'bool', 'int', 'booland', 'boolor',
-                                           'ifexp', 'min', 'max') or (v.op == 'cmp') or (v.op == 'phi' and getattr(v, 'cond', None) is not None)
+                                           'ifexp', 'min', 'max') or (v.op == 'cmp') or (v.op == 'phi' and getattr(v, 'cond', None) is not None) or \
+            (v.op == 'call' and v.args and v.args[0] in ('divmod', 'abs', 'min', 'max', 'pow', 'builtins.divmod')) or \
+            v.op in ('divmod', 'abs', 'pow', 'round') or \
+            (v.op == 'index' and len(v.args) == 2 and isinstance(v.args[1], int) and isinstance(v.args[0], Sym) and v.args[0].op in ('call', 'divmod'))
+        if known and v.op == 'call':
+            for x in v.args[1:]:
+                leaves(x, acc)
+            return acc
+        if known and v.op == 'index':
+            leaves(v.args[0], acc)
+            return acc
         if known:
             for x in v.args:
                 leaves(x, acc)
